@@ -29,6 +29,6 @@ s = repl("| property | commit | what failed |\n|----------|--------|------------
 s = repl("| seed | property | first run | detection |\n|------|----------|-----------|-----------|\n", seeds, s)
 s = re.sub(r"small to repair got one unguarded `fix:` commit each \(\d+ commits", "small to repair got one unguarded `fix:` commit each (%d commits" % len(d["fixed"]), s)
 s = re.sub(r"\n\d+ changes, each compiling, passing the existing suite", "\n%d changes, each compiling, passing the existing suite" % len(names), s)
-s = re.sub(r"at the last\ncommit all \d+ exit 1", "at the last\ncommit all %d exit 1" % len(names), s)
+s = re.sub(r"at the last(\s+)commit all \d+ exit 1", lambda m: "at the last%scommit all %d exit 1" % (m.group(1), len(names)), s)
 open(p, "w").write(s)
 print("fixed:", len(d["fixed"]), "seeds:", len(names))
